@@ -404,7 +404,7 @@ theorem finv_step {st st' : State} {e : Ev} {o : Out} (h : FInv st) (w : WF st)
         · intro g u f' hj; simp at hj
         · intro u hsu
           refine absurd hsu (not_start_of_role h3.inv (R := .sleep) ?_ (fun u => by simp) u)
-          exact .inl ⟨t, by simp⟩
+          exact .inl ⟨t, by simp [newFut]⟩
         · intro g u s e hj; simp at hj
   | chkIfCancelled =>
     simp only [step] at hs
